@@ -47,6 +47,20 @@ Proof.
   destruct av; [now apply subsetZ_incl|exact I].
 Qed.
 
+(* what check_partition guarantees (since the repair of check_intersection: also that every
+   nest lists each alternative once) *)
+Lemma check_partition_inv n :
+  check_partition n = true ->
+  (forall m, In m (nl_list n) -> NoDup (nn_alts m)) /\
+  forallb (fun a => disjointZ a (nl_alone n)) (map nn_alts (nl_list n)) = true /\
+  pairwise_disjoint (map nn_alts (nl_list n)) = true.
+Proof.
+  unfold check_partition, check_intersection. intros H.
+  apply andb_true_iff in H as [_ H]. apply andb_true_iff in H as [Hnd H].
+  apply andb_true_iff in H as [H1 H2]. split; [|split; assumption].
+  intros m Hm. apply nodupZ_NoDup. rewrite forallb_forall in Hnd. apply Hnd. now apply in_map.
+Qed.
+
 Lemma lognested_inv util av a ch t :
   lognested util av a ch = Ok t ->
   exists n H,
@@ -80,6 +94,25 @@ Proof.
   exists n, H. repeat split; try assumption;
     unfold nested_mev_mu, lognested_mev_mu; rewrite En; simpl; rewrite Eg; simpl; rewrite Es;
     unfold logmev_f; rewrite EH; reflexivity.
+Qed.
+
+(* every nested-logit builder that returns Ok was given nests that list each alternative once *)
+Lemma nl_guard_nodup util av n zd :
+  nl_guard util av n zd = Ok tt -> forall m, In m (nl_list n) -> NoDup (nn_alts m).
+Proof. intros H. destruct (nl_guard_inv _ _ _ _ H) as (Hp & _). apply (check_partition_inv _ Hp). Qed.
+
+Lemma lognested_ok_nodup util av a ch l :
+  lognested util av a ch = Ok l -> forall m, In m (nn_arg_nests a) -> NoDup (nn_alts m).
+Proof.
+  intros E. destruct (lognested_inv _ _ _ _ _ E) as (n & H & En & Eg & _).
+  rewrite <- (nl_make_list _ _ _ En). exact (nl_guard_nodup _ _ _ _ Eg).
+Qed.
+
+Lemma lognested_mu_ok_nodup util av a ch mu l :
+  lognested_mev_mu util av a ch mu = Ok l -> forall m, In m (nn_arg_nests a) -> NoDup (nn_alts m).
+Proof.
+  intros E. destruct (lognested_mu_inv _ _ _ _ _ _ E) as (n & H & En & Eg & _).
+  rewrite <- (nl_make_list _ _ _ En). exact (nl_guard_nodup _ _ _ _ Eg).
 Qed.
 
 Lemma find_nest_some n i m : find_nest n i = Some m -> In m (nl_list n) /\ In i (nn_alts m).
